@@ -105,6 +105,9 @@ def EnvAgrees (g : Ctx) (r : VEnv α) : Prop :=
     | some k, some v => v.agrees k = true
     | none, none => True
     | _, _ => False
+/-- weaker: every name of the context has a value of its kind (the environment may hold more names) -/
+def EnvCovers (g : Ctx) (r : VEnv α) : Prop :=
+  ∀ n k, g.get n = some k → ∃ v, r.get n = some v ∧ v.agrees k = true
 end wellKinded
 
 /-- `RESERVED_TOKEN` (`check_if_reserved_token`): keywords, literals, `Graph`, block names, builtin functions -/
